@@ -374,6 +374,26 @@ def run(ctx):
             L = Layout(rng, canonical=(j == 0 and i % 5 == 0), crlf=(j == 2), comments=True)
             text = render(t, L)
             cases.append(({"t": t, "text": text, "file": (i + j) % 4 == 0}, len(L.dims)))
+    # deep documents: quoted strings (re-inserted through find_global_key / set_global_key) at key paths of 9 and of
+    # exactly 10 entries - the documented limit -, reached through dicts only, through a matrix, through a list of dicts
+    for i in range(ctx.n(18, 120)):
+        target = 9 + i % 2
+        shape = (i // 2) % 3
+        names = [gen.word(rng, 1, 5) + str(j) for j in range(10)]
+        if shape == 0:
+            t = {"s": rng.choice(["two words", "a;b", "x{y}"]), "n": i}
+            nlev = target - 1
+        elif shape == 1:
+            t = {"m": [["x axis", "u"], ["v", rng.choice(["w z", "q(1)"])]], "n": 2}
+            nlev = target - 3
+        else:
+            t = {"items": [{"spec": {"name": "left wheel", "size": 4}}, {"spec": {"name": rng.choice(["r w", "it's"]), "size": 5}}]}
+            nlev = target - 4
+        for k in reversed(names[:nlev]):
+            t = {k: t}
+        for j in range(2):
+            L = Layout(rng, canonical=(j == 0), crlf=False, comments=(j == 1))
+            cases.append(({"t": t, "text": render(t, L), "file": (i + j) % 2 == 0}, 3))
     if ctx.tier == "thorough":
         # every pair of separator choices for two-entry documents
         seps = ["", " ", "\t", "\n", "\r\n", "  \n ", "\n\n"]
